@@ -650,15 +650,17 @@ func runC07(ctx *Ctx) *Result {
 			"first_line": firstLines(fresh[ci][0].Stdout, 1), "features": len(trees[c.Tree].g.Features)})
 	}
 	// coverage floors: the generator must keep reaching the audited loops
-	if len(nontrivial) < len(cases)/2 {
+	if len(res.Violations) > 0 {
+		// violations are the result; the floors below only guard a PASS against being vacuous
+	} else if len(nontrivial) < len(cases)/2 {
 		res.Broken = fmt.Sprintf("only %d of %d cases were non-trivial", len(nontrivial), len(cases))
 	}
 	for _, k := range []string{"Pkgsrc.MasterSiteURLToVar", "Pkgsrc.Tools.byName", "Pkgsrc.changes.LastChange"} {
-		if mapMax[k] < 3 {
+		if mapMax[k] < 3 && len(res.Violations) == 0 {
 			res.Broken = fmt.Sprintf("the generator no longer fills %s (max %d keys)", k, mapMax[k])
 		}
 	}
-	if d, _ := res.Distribution["diagnostics"].(int); d < 20*len(cases) {
+	if d, _ := res.Distribution["diagnostics"].(int); d < 20*len(cases) && len(res.Violations) == 0 {
 		res.Broken = fmt.Sprintf("only %d diagnostics in %d cases: the generated trees are too clean to show an order", d, len(cases))
 	}
 	c07AuditNumbers(ctx, res)
